@@ -20,7 +20,10 @@ func c12Candidates(lvl int) []string {
 		small = gen.Alt(small, gen.Lit("0", "1.0.1", "2", "1.2.3.4", "1.0.0.0", "10.0", "0.0.1", "2.1"))
 		num = gen.Lit("1", "2", "10", "0", "01", "2147483648")
 	}
+	m := gen.Magnitudes
 	return gen.Alt(
+		gen.Seq(gen.Lit("1.", "1-", "1-alpha-", "1-rc", "1.0.", "1-sp-", "1-foo-"), m),
+		gen.Seq(m, gen.Lit("", ".1", "-1", "-rc")),
 		core,
 		gen.Seq(small, gen.Lit(".", "-"), q),
 		gen.Seq(small, gen.Lit(".", "-"), q, gen.Lit("", ".", "-"), num),
